@@ -100,6 +100,26 @@ pub fn observable(st: &MState, staking_module: &str) -> MState {
     o
 }
 
+/// Inverse of `observable`: turns an observation back into a model state (used to re-synchronise
+/// the model with the real chain after a transition that diverged, so that one divergence is
+/// reported once and does not cascade through later transactions).
+pub fn from_observed(obs: &MState, staking_module: &str) -> MState {
+    let mut st = obs.clone();
+    if let Some(supply) = st.bank.remove(SUPPLY) {
+        let mut pool: BTreeMap<String, u128> = BTreeMap::new();
+        for (d, total) in supply {
+            let others: u128 = st.bank.values().map(|m| m.get(&d).copied().unwrap_or(0)).sum();
+            if total > others {
+                pool.insert(d, total - others);
+            }
+        }
+        if !pool.is_empty() {
+            st.bank.insert(staking_module.to_string(), pool);
+        }
+    }
+    st
+}
+
 impl World {
     pub fn new() -> World {
         let api = MockApi::default();
@@ -263,8 +283,17 @@ impl World {
     }
 
     pub fn run_real(&mut self, start: &StartState, prog: &Rc<Program>) -> RealOut {
-        self.app.set_block(start.block.clone());
-        *self.app.storage_mut() = start.storage.clone();
+        self.run_real_opts(start, prog, true)
+    }
+
+    /// `restore = false` continues on whatever the app's storage currently is (used to replay a
+    /// witness path without snapshot restore between the steps).
+    pub fn run_real_opts(&mut self, start: &StartState, prog: &Rc<Program>, restore: bool) -> RealOut {
+        if restore {
+            self.app.set_block(start.block.clone());
+            *self.app.storage_mut() = start.storage.clone();
+        }
+        let before = self.app.storage().clone();
         set_script(prog.clone());
         let root = NodeMsg { n: prog.root };
         let app = &mut self.app;
@@ -349,7 +378,7 @@ impl World {
             Ok(r) => (r, None),
             Err(p) => (Err(format!("panic: {}", p)), Some(p)),
         };
-        let storage_unchanged = self.app.storage().data == start.storage.data;
+        let storage_unchanged = self.app.storage().data == before.data;
         let block_unchanged = self.app.block_info() == start.block;
         let final_storage = self.app.storage().clone();
         // observation must not leave traces in the script/trace channel
@@ -359,7 +388,12 @@ impl World {
     }
 
     pub fn run_model(&self, start: &StartState, prog: &Program) -> ModelOut {
+        self.run_model_flip(start, prog, None)
+    }
+
+    pub fn run_model_flip(&self, start: &StartState, prog: &Program, flip: Option<usize>) -> ModelOut {
         let mut m = ModelRun::new(prog, &self.info, start.mstate.clone(), start.mblock());
+        m.flip_validity_of = flip;
         let result = m.run_top();
         ModelOut { result, trace: m.trace, st: m.st, created: m.created, multi: m.multi }
     }
